@@ -61,8 +61,9 @@ def project(m, version, zen, azi):
                 t += tri(s.p1) + tri(s.p2) + tri(m.endpoint(s.p2))
     t.append(len(m.sources))
     for s in m.sources:
-        v = s.voltage
-        t += [s.idx + 1, nm.id(abs(v)), nm.id(math.degrees(math.atan2(v.imag, v.real)))]
+        # magnitude and phase as the source record holds them (a source may be given with any sign of the magnitude and any
+        # number of turns in the phase; that they describe the voltage is what the independent reader checks)
+        t += [s.idx + 1, nm.id(float(s.magnitude)), nm.id(float(s.phase_d))]
     ldtypes = (Impedance_Load, Skin_Effect_Load, Insulation_Load)
     is_s = any(not isinstance(l, ldtypes) for l in m.loads)
     loads = []
@@ -200,12 +201,35 @@ def gen_argv(rng):
     return argv, kind
 
 
-def real_text(argv, version):
+SRCFORMS = [None, None, 'polar', 'polar-neg', 'polar-wrap']
+
+
+def apply_srcform(m, form):
+    """the same voltages given through the other constructor form of a source, magnitude and phase in degrees: as they
+    are, with a negative magnitude and the phase turned by half a turn, or with the phase a full turn on"""
+    from mininec.mininec import Excitation
+    if not form:
+        return
+    old = list(m.sources)
+    for s in old:
+        m.sources.remove(s)
+    for k, s in enumerate(old):
+        v = complex(s.voltage)
+        mag, ph = abs(v), math.degrees(math.atan2(v.imag, v.real))
+        if form == 'polar-neg' and k % 2 == 0:
+            mag, ph = -mag, ph + 180.0
+        elif form == 'polar-wrap':
+            ph = ph + (360.0 if k % 2 == 0 else -360.0)
+        m.register_source(Excitation(mag, ph), s.idx)
+
+
+def real_text(argv, version, srcform=None):
     from mininec.mininec import Angle
     r = run_main(argv, want_mininec=True)
     m = r['m']
     if m is None:
         return None, None, None, None, r
+    apply_srcform(m, srcform)
     th = [a for a in argv if a.startswith('--theta=')][0].split('=')[1].split(',')
     ph = [a for a in argv if a.startswith('--phi=')][0].split('=')[1].split(',')
     zen = Angle(float(th[0]), float(th[1]), int(th[2]))
@@ -281,8 +305,8 @@ def python_reader(txt):
     return out
 
 
-def property_on_impl(argv, version):
-    m, txt, zen, azi, r = real_text(argv, version)
+def property_on_impl(argv, version, srcform=None):
+    m, txt, zen, azi, r = real_text(argv, version, srcform)
     if m is None:
         return None
     try:
@@ -299,12 +323,14 @@ def property_on_impl(argv, version):
     if len(rd['sources']) != len(m.sources):
         return 'number of sources'
     for (p, mag, ph), s in zip(rd['sources'], m.sources):
-        v = s.voltage
-        if p != s.idx + 1 or not near(mag, abs(v)):
+        v = complex(s.voltage)
+        # BASIC forms the voltage as magnitude (any sign) times exp (j phase)
+        vv = mag * complex(math.cos(math.radians(ph)), math.sin(math.radians(ph)))
+        if p != s.idx + 1 or not near(abs(mag), abs(v)):
             return 'source %d: pulse/magnitude %r, %r for voltage %r on pulse %d' % (p, p, mag, v, s.idx + 1)
-        want = math.degrees(math.atan2(v.imag, v.real))
-        if abs(((ph - want + 180) % 360) - 180) > 1e-3:
-            return 'source on pulse %d: phase answer %r for a voltage of %r (%.6g degrees)' % (p, ph, v, want)
+        if abs(vv - v) > 2e-5 * abs(v):
+            return ('source on pulse %d: the answers %r, %r describe the voltage %r, the model has %r'
+                    % (p, mag, ph, complex(round(vv.real, 6), round(vv.imag, 6)), v))
     nseg = sum(w[0] for w in rd['wires'])
     if nseg != sum(w.n_segments for w in m.geo):
         return 'emulated wires have %d segments in total, model has %d' % (nseg, sum(w.n_segments for w in m.geo))
@@ -369,7 +395,7 @@ def replay(rp):
     if 'argv' not in rp:
         print('replay: nothing to execute:', rp.get('kind'))
         return 1
-    bad = property_on_impl(rp['argv'], rp.get('version', '12'))
+    bad = property_on_impl(rp['argv'], rp.get('version', '12'), rp.get('srcform'))
     print('replay ->', bad or 'property holds')
     return 1 if bad else 0
 
@@ -385,10 +411,12 @@ def run(ck):
     cases = corpus + [gen_argv(rng) for _ in range(n)]
     for argv, kind in cases:
         version = rng.choice(['9', '12', '13'])
-        m, txt, zen, azi, r = real_text(argv, version)
+        srcform = rng.choice(SRCFORMS)
+        m, txt, zen, azi, r = real_text(argv, version, srcform)
         if m is None:
             ck.count('rejected_' + r['kind'])
             continue
+        ck.count('sources_' + (srcform or 'complex'))
         try:
             toks, nm = project(m, version, zen, azi)
         except NotImplementedError:
@@ -410,14 +438,14 @@ def run(ck):
             elif lines != real:
                 k = next((i for i, (a, b) in enumerate(zip(lines, real)) if a != b), min(len(lines), len(real)))
                 why = 'line %d: implementation %r, model %r' % (k + 1, real[k] if k < len(real) else None, lines[k] if k < len(lines) else None)
-        bad = property_on_impl(argv, version)
+        bad = property_on_impl(argv, version, srcform)
         if bad:
-            viol.append(dict(kind='basic-input', argv=argv, version=version, observed=bad))
+            viol.append(dict(kind='basic-input', argv=argv, version=version, srcform=srcform, observed=bad))
         elif why:
-            dis.append(dict(argv=argv, version=version, why=why))
+            dis.append(dict(argv=argv, version=version, srcform=srcform, why=why))
     ck.stats['disagreements'] = len(dis)
     ck.cov['rule'] = ('command lines with straight / bent / fuzzily joined wires, tapered wires, arcs, helices, all media forms '
-                      '(ideal, one, two linear/circular, three, radials), 1-2 complex source voltages, impedance / RLC / trap / '
+                      '(ideal, one, two linear/circular, three, radials), 1-2 source voltages (given as complex numbers or as magnitude and phase: plain, negative magnitude, phase a turn on), impedance / RLC / trap / '
                       'Laplace / skin / insulation loads, versions 9/12/13; generated input compared line by line with the model; '
                       'distinct = distinct (structure kind, version, option set)')
     ck.assumptions += ["the prompt order of MININEC-3 is taken from the comments in as_basic_input (the BASIC source is not in the repository)",
